@@ -30,6 +30,7 @@ UNIVERSES = {
     "weird": {"s": ["x y", "v1.0", "é", "job", "a.b"], "a": [0, 1]},
     "typed": {"a": [1, 1.0, "1", True]},
     "sep": {"s": ["p/q", "ok"], "a": [0, 1]},
+    "jobkey": {"job": [1, 2, "job"], "a": [0, 1]},
     "dots": {"s": [".h5", ".hidden", "..", "x", "..x", "."], "a": [0, 1]},
     "nestedsep": {"n": [{"x": "p/q"}, {"x": "ok"}, {"x": ".."}, {"x": 1}], "l": [["p/q"], [1], ["."]], "a": [0, 1]},
 }
@@ -224,6 +225,8 @@ class Run:
         comps = [c for j in sel for k, v in flat(self.model[j]).items() for c in (*k.split("."), str(v))]
         has_sep = any(os.sep in c for c in comps)
         has_dots = any(c in (os.curdir, os.pardir) for c in comps)
+        # a key named like the links themselves: link and directory would compete for one path
+        has_leaf_key = any("job" in self.model[j] for j in sel)
         pk = "None" if path is None else "False" if path is False else path
         if exc is not None:
             after = snapshot(prefix) if os.path.lexists(prefix) else None
@@ -242,6 +245,9 @@ class Run:
         if has_sep:
             raise Mismatch(P, "C17:separator-accepted", f"a state point of the selection contains '{os.sep}' but "
                            f"create_linked_view succeeded")
+        if has_leaf_key:
+            raise Mismatch(P, "C17:leaf-named-key-accepted", "a state point of the selection has a key named "
+                           "'job' (the name of the links) but create_linked_view succeeded")
         if has_dots:
             raise Mismatch(P, "C17:dot-component-accepted", "a state point value of the selection is '.' or '..' "
                            "(not representable as a path component) but create_linked_view succeeded")
